@@ -143,18 +143,41 @@ def internTerm (terms : List Term) (t : Term) : List Term × Nat :=
   | some i => (terms, i)
   | none => (terms ++ [t], terms.length)
 
-/-- `analyzeCond` -/
-def analyzeCond (terms : List Term) : AttrExp → List Term × Cond
-  | .leaf t => let (ts, i) := internTerm terms t; (ts, .leaf i)
-  | .paren e => analyzeCond terms e
+/-- `joinConds`: c₁ op (c₂ op (… cₙ)) -/
+def joinConds (op : BoolOp) : List Cond → Cond
+  | [] => .leaf 0
+  | [c] => c
+  | c :: cs => .node op c (joinConds op cs)
+
+/-- the step of the loop of `analyzeCond`: a head followed by `&&` joins the group of what follows it, any
+    other operator (also the empty one) closes the group -/
+def consHead {α} (h : α) (op : BoolOp) (gs : List (List α)) : List (List α) :=
+  match op, gs with
+  | .and, g :: gs' => (h :: g) :: gs'
+  | _, _ => [h] :: gs
+
+/-- the disjunction of the conjunctions of the groups -/
+def joinGroups (gs : List (List Cond)) : Cond := joinConds .or (gs.map (joinConds .and))
+
+/-- the loop of `analyzeCond` (after fix 99a4847) over the chain `h₁ op₁ h₂ op₂ …` the grammar nests to the right:
+    the heads (`analyzeHead`: a condition, interned by its text, or a parenthesised expression) in groups of
+    `&&`-joined neighbours -/
+def analyzeChain (terms : List Term) : AttrExp → List Term × List (List Cond)
+  | .leaf t => let (ts, i) := internTerm terms t; (ts, [[.leaf i]])
+  | .paren e => let (ts, gs) := analyzeChain terms e; (ts, [[joinGroups gs]])
   | .leafOp t op tail =>
     let (ts, i) := internTerm terms t
-    let (ts', r) := analyzeCond ts tail
-    (ts', .node op (.leaf i) r)
+    let (ts', gs) := analyzeChain ts tail
+    (ts', consHead (.leaf i) op gs)
   | .parenOp e op tail =>
-    let (ts, l) := analyzeCond terms e
-    let (ts', r) := analyzeCond ts tail
-    (ts', .node op l r)
+    let (ts, hs) := analyzeChain terms e
+    let (ts', gs) := analyzeChain ts tail
+    (ts', consHead (joinGroups hs) op gs)
+
+/-- `analyzeCond`: `&&` binds tighter than `||` -/
+def analyzeCond (terms : List Term) (e : AttrExp) : List Term × Cond :=
+  let (ts, gs) := analyzeChain terms e
+  (ts, joinGroups gs)
 
 /-- Go's `int64(1) << idx` -/
 def shl1 (idx : Nat) : Int :=
@@ -214,18 +237,31 @@ def aggWhere (aggAttr : String) : List Expr :=
 
 /-- `AttrConditionPlanner.Process`: every condition is a disjunct of WHERE (`maybeCreateWhere`), the key of
     an aggregated attribute is one more; the planner object is not changed by `Process` -/
-def attrCondition (c : Ctx) (terms : List Term) (cond : Cond) (aggAttr : String) : PlanM Sel := do
+def attrConditionCore (c : Ctx) (terms : List Term) (cond : Cond) (aggAttr : String) : PlanM Sel := do
   let sqlTerms ← mapOk termSql terms
   let res := ((((initIndex c).addCols (aggCol aggAttr)).andWhere [or_ (sqlTerms ++ aggWhere aggAttr)]).andHaving
     [(condSql sqlTerms false cond).1])
   pure (match randomFilter c with | [] => res | f => res.andWhere f)
 
+/-- the guard of `analyze` (fix 4c45e66): the bit set has 64 bits, a selector with more distinct conditions is
+    refused (the Go code refuses it when the plan is built; the model reports planning and processing errors alike) -/
+def attrCondition (c : Ctx) (terms : List Term) (cond : Cond) (aggAttr : String) : PlanM Sel :=
+  if 64 < terms.length then throw "more than 64 different conditions in one selector are not supported"
+  else attrConditionCore c terms cond aggAttr
+
+theorem attrCondition_core {c : Ctx} {terms : List Term} {cond : Cond} {aggAttr : String} {S : Sel}
+    (h : attrCondition c terms cond aggAttr = .ok S) : terms.length ≤ 64 ∧ attrConditionCore c terms cond aggAttr = .ok S := by
+  unfold attrCondition at h
+  split at h
+  · simp [throw, throwThe, MonadExceptOf.throw] at h
+  · exact ⟨by omega, h⟩
+
 /-- `AttrlessConditionPlanner.Process` -/
 def attrless (c : Ctx) : Sel :=
   let tbl : Expr := .col (.raw c.tracesTable) "traces"
-  let traceIds : Sel := .mk [] true [simpleCol "trace_id" "trace_id"] (some tbl) [] none
-    (some (and_ [and_ [ge (.raw "timestamp_ns") (.int c.fromNs), le (.raw "timestamp_ns") (.int c.toNs)]]))
-    [] none [.orderBy (.raw "timestamp_ns") .desc] (some (.int c.limit))
+  let traceIds : Sel := .mk [] false [simpleCol "trace_id" "trace_id"] (some tbl) [] none
+    (some (and_ [and_ [ge (.raw "timestamp_ns") (.int c.fromNs), lt (.raw "timestamp_ns") (.int c.toNs)]]))
+    [.raw "trace_id"] none [.orderBy (.call "max" [.raw "timestamp_ns"]) .desc] (some (.int c.limit))
   let traceAndSpanIds : Sel := .mk [] false
     [simpleCol "trace_id" "trace_id", .col (.call "groupArray(100)" [.raw "span_id"]) "span_id"] (some tbl) [] none
     (some (and_ [and_ [ge (.raw "timestamp_ns") (.int c.fromNs), lt (.raw "timestamp_ns") (.int c.toNs),
@@ -400,7 +436,7 @@ def tracesData (c : Ctx) (main : Sel) : Sel :=
   let traceSpanIds : Sel := .mk [] false [.raw "trace_id", .raw "span_id"]
     (some (.arrayJoin (.withRef ig) (.raw "span_id"))) [] none none [] none [] none
   let tracesInfo : Sel := .mk [] false
-    [simpleCol "traces.trace_id" "trace_id", simpleCol "min(traces.timestamp_ns)" "_start_time_unix_nano",
+    [simpleCol "traces.trace_id" "trace_id", .col (.call "min" [.raw "traces.timestamp_ns"]) "_start_time_unix_nano",
      simpleCol "toFloat64(max(traces.timestamp_ns + traces.duration_ns) - min(traces.timestamp_ns)) / 1000000" "_duration_ms",
      simpleCol "argMin(traces.service_name, traces.timestamp_ns)" "_root_service_name",
      simpleCol "argMin(traces.name, traces.timestamp_ns)" "_root_trace_name"]
@@ -408,11 +444,11 @@ def tracesData (c : Ctx) (main : Sel) : Sel :=
     (some (and_ [.isIn (.raw "traces.trace_id") [.withRef (.named "trace_ids")]]))
     [.raw "traces.trace_id"] none [] none
   (Sel.mk [] false
-    [simpleCol "lower(hex(traces.trace_id))" "trace_id",
-     simpleCol "arrayMap(x -> lower(hex(x)), groupArray(traces.span_id))" "span_id",
-     simpleCol "groupArray(traces.duration_ns)" "duration",
-     simpleCol "groupArray(traces.timestamp_ns)" "timestamp_ns",
-     simpleCol "min(_start_time_unix_nano)" "start_time_unix_nano",
+    [.col (.call "lower" [.call "hex" [.raw "traces.trace_id"]]) "trace_id",
+     .col (.call "arrayMap" [.raw "x -> lower(hex(x))", .call "groupArray" [.raw "traces.span_id"]]) "span_id",
+     .col (.call "groupArray" [.raw "traces.duration_ns"]) "duration",
+     .col (.call "groupArray" [.raw "traces.timestamp_ns"]) "timestamp_ns",
+     .col (.call "min" [.raw "_start_time_unix_nano"]) "start_time_unix_nano",
      simpleCol "min(_duration_ms)" "duration_ms",
      simpleCol "min(_root_service_name)" "root_service_name",
      simpleCol "min(_root_trace_name)" "root_trace_name"]
@@ -440,7 +476,7 @@ def selectTags (c : Ctx) (col : String) (main : Sel) : Sel :=
       ge (.raw "traces_idx.timestamp_ns") (.int c.fromNs),
       lt (.raw "traces_idx.timestamp_ns") (.int c.toNs),
       .isIn (.raw "span_id") [.withRef (.named "pre_select_tags")]]]))
-    [.raw "trace_id", .raw "span_id"] none [] none).with_ [(.named "select_spans", main), (.named "pre_select_tags", pre)]
+    [.raw col] none [] none).with_ [(.named "select_spans", main), (.named "pre_select_tags", pre)]
   res
 
 def tagsOrder (c : Ctx) (col : String) (s : Sel) : Sel :=
@@ -460,22 +496,34 @@ def tagsMain (c : Ctx) (script : Script) : PlanM (Option Sel) := do
       let m ← attrCondition c terms cond (match s.agg with | some a => a.attr | none => "")
       pure (some m)
 
-/-- `PlanTagsV2(script).Process(ctx)`; `{}` is the nil dereference of the Go code -/
-def planTags (c : Ctx) (script : Script) : PlanM Sel := do
+/-- `AllTagsRequestPlanner.Process` -/
+def allTags (c : Ctx) (kvTable : String) : Sel :=
+  .mk [] true [simpleCol "key" "key"] (some (.raw kvTable)) [] none
+    (some (and_ [ge (.raw "date") (.str (Time.formatFromDate c.fromNs)), le (.raw "date") (.str (Time.formatDate (Int.fdiv c.toNs 1000000000)))]))
+    [] none [] none
+
+/-- `AllValuesRequestPlanner.Process`: the lower date bound is `FormatFromDate(ctx.From)` (UTC, − 30 min), the upper one the UTC day of ctx.To -/
+def allValues (c : Ctx) (kvTable : String) (key : Bytes) : Sel :=
+  .mk [] true [simpleCol "val" "val"] (some (.raw kvTable)) [] none
+    (some (and_ [ge (.raw "date") (.str (Time.formatFromDate c.fromNs)), le (.raw "date") (.str (Time.formatDate (Int.fdiv c.toNs 1000000000))),
+      eq (.raw "key") (.str key)])) [] none [] none
+
+def _root_.Qryn.Sql.Sel.setGroupBy : Sel → List Expr → Sel
+  | .mk ws d c f j p w _ h o l, g => .mk ws d c f j p w g h o l
+
+/-- `PlanTagsV2(script).Process(ctx)`; `{}` asks for all tag names of the time range (fix 47f5e31) -/
+def planTags (c : Ctx) (kvTable : String) (script : Script) : PlanM Sel := do
   match ← tagsMain c script with
-  | none => throw "nil pointer dereference (no conditions)"
+  | none => pure (allTags c kvTable)
   | some m => pure (tagsOrder c "key" (selectTags c "key" m))
 
-/-- `PlanValuesV2(script, key).Process(ctx)`; the lower date bound is `FormatFromDate(ctx.From)` (UTC, − 30 min), the upper one the UTC day of ctx.To -/
+/-- `PlanValuesV2(script, key).Process(ctx)`: the tag statement with `val` selected and grouped (fix 9468fce) -/
 def planValues (c : Ctx) (kvTable : String) (key : Bytes) (script : Script) : PlanM Sel := do
   match ← tagsMain c script with
-  | none =>
-    pure (.mk [] true [simpleCol "val" "val"] (some (.raw kvTable)) [] none
-      (some (and_ [ge (.raw "date") (.str (Time.formatFromDate c.fromNs)), le (.raw "date") (.str (Time.formatDate (Int.fdiv c.toNs 1000000000))),
-        eq (.raw "key") (.str key)])) [] none [] none)
+  | none => pure (allValues c kvTable key)
   | some m =>
     let t := tagsOrder c "key" (selectTags c "key" m)
-    let t : Sel := match t with | .mk ws d _ f j p w g h o l => .mk ws d [simpleCol "val" "val"] f j p w g h o l
-    pure (tagsOrder c "val" (t.andWhere [eq (.raw "key") (.str key)]))
+    let t := ((t.setCols [simpleCol "val" "val"]).andWhere [eq (.raw "key") (.str key)]).setGroupBy [.raw "val"]
+    pure (tagsOrder c "val" t)
 
 end Qryn.TraceQL
